@@ -250,9 +250,10 @@ def replayRec (r : Replay) (rec : Record) (pos : Pos) : Replay :=
   else { r with pending := pendingAdd r.pending rec.batch (rec, pos) }
 
 /-- scan one data file: replay its records, then (on EOF) drop an unfinished tail.
+    `tol` = the reader tolerates a torn tail (`reader.TolerateTornTail()`, active file only).
     `none` = the scan ended with an error (Open fails). -/
-def loadFile (r : Replay) (id : Nat) (f : FileSt) : Option (Replay × FileSt) :=
-  let sc := scan C id f.bytes
+def loadFile (r : Replay) (id : Nat) (f : FileSt) (tol : Bool) : Option (Replay × FileSt) :=
+  let sc := scan C tol id f.bytes
   if !sc.ok then none else
   let decoded := sc.recs.map (fun (x : ByteArray × Pos) => (decodeRecord x.1, x.2))
   if decoded.any (fun x => x.1.isNone) then none else
@@ -263,7 +264,8 @@ def loadFile (r : Replay) (id : Nat) (f : FileSt) : Option (Replay × FileSt) :=
     then { bytes := f.bytes.extract 0 sc.validEnd, synced := min f.synced sc.validEnd } else f
   some (r, f')
 
-/-- `loadIndexFromDataFiles` over the files with id ≥ `nonMerge` -/
+/-- `loadIndexFromDataFiles` over the files with id ≥ `nonMerge`; only the reader of the active
+    file (`fileId == db.activeFile.ID`: the last file of the list) tolerates a torn tail -/
 def loadIndex (r : Replay) (nonMerge : Nat) : List (Nat × FileSt) → Option (Replay × List (Nat × FileSt))
   | [] => some (r, [])
   | (id, f) :: rest =>
@@ -272,7 +274,7 @@ def loadIndex (r : Replay) (nonMerge : Nat) : List (Nat × FileSt) → Option (R
       | some (r, fs) => some (r, (id, f) :: fs)
       | none => none
     else
-      match loadFile r id f with
+      match loadFile r id f rest.isEmpty with
       | none => none
       | some (r, f') =>
         match loadIndex r nonMerge rest with
@@ -281,7 +283,7 @@ def loadIndex (r : Replay) (nonMerge : Nat) : List (Nat × FileSt) → Option (R
 
 /-- `loadIndexFromHintFile`; returns the replay state and the largest file id seen. `none` = error -/
 def loadHint (r : Replay) (hint : ByteArray) : Option (Replay × Nat) :=
-  let sc := scan C 0 hint
+  let sc := scan C false 0 hint
   if !sc.ok then none else
   let decoded := sc.recs.map (fun (x : ByteArray × Pos) => decodeHint x.1)
   if decoded.any (·.isNone) then none else
